@@ -86,6 +86,9 @@ def table_case(draw, adaptive=None, allow_f32=True, max_n=120, kmin=-3):
     else:
         big = 300 if ns == "numpy" else 40
         case["n_steps"] = draw(st.one_of(st.integers(1, 12), st.integers(1, 30), st.integers(1, big)))
+    if case["route"] == "api" and draw(st.integers(0, 2)) == 0:
+        # the sampling call's output-namespace option: the result is converted after the run
+        case["out_ns"] = draw(st.sampled_from(["numpy", "torch", "jax"]))
     if case["route"] == "base" and draw(st.integers(0, 3)) == 0:
         # the sampler object has already completed an unrelated run (different schedule / target) before the run under test
         case["reuse"] = draw(st.sampled_from(["ramp", "scalar", "fixed"]))
@@ -218,6 +221,8 @@ def run(case, ctx=None, likelihood_wrapper=None, extra_kwargs=None, flow=None, w
             a = Aspire(log_likelihood=ll_fn, log_prior=lp_fn, dims=case["dims"], parameters=params,
                        flow=flow, flow_backend="pbt_table", xp=xp, dtype=dt)
             res.aspire = a
+            if case.get("out_ns"):
+                kw["xp"] = env.xp_of(case["out_ns"])
             res.samples, res.history = a.sample_posterior(
                 n_samples=case["n"], sampler="smc", return_history=True, preconditioning="none",
                 rng=rng, **kw)
@@ -312,6 +317,8 @@ def run_failed(case, r, ctx, labels):
     """C06 owns 'the run raised / did not finish'. Other properties skip such runs (counted)."""
     if getattr(r, "reused", False):
         labels.append("reused-sampler")
+    if case.get("out_ns"):
+        labels.append("out-ns:" + case["out_ns"])
     if r.error is not None:
         from .runner import aspire_frame
 
